@@ -30,6 +30,15 @@ def run(ctx):
              "arrival order relative to the polls) + NEG counterexamples + corpus (3 services); executed on the real "
              "ServerWorker future; per poll the services' own log (poll_ready answers, calls, creations) is judged by TLC; "
              "non-trivial = a connection is served after some service answered not-ready")
+    # "queued connections are served once readiness returns", accept loop and worker together: a worker that parks with a
+    # non-empty queue and no wake-up owed never serves them (bursts of 70-80 connections queued at a worker, back-pressure)
+    import srvflow
+    srvflow.run_check(
+        ctx, design=[], edge_cfgs=[], negs={}, invariants=["T_C07_QueuedMeansWoken", "T_C01_Conservation"],
+        corpus=["server_core.ndjson"], random_flavour="ready", random_quick=80, random_thorough=1500, strict_quick=0,
+        nontrivial=lambda s, run: any(any(n > 1 for n in r["st"]["chanLen"]) for r in run if "st" in r),
+        rule="server flow for C07: corpus (bursts of 70-80 connections queued at a worker) + random schedules with application "
+             "back-pressure on the real accept loop and workers; a worker that is Available with a non-empty queue is owed a poll")
     # end to end through the public API: a failed readiness check rebuilds that service and only it, from its own factory
     # (Builder.tla: one more instance of that call's factory, every socket still answered by its own call's service)
     import srvbuilder
